@@ -20,7 +20,15 @@ theorem optOK_of_valid (s : Schema) (ks d : Bool) (tr : TypeRef) (v : Value)
     OptOK s ks d tr (some v) := by
   intro w hw
   cases hw
-  exact ⟨(validateV_iff s d v tr).1 hv, hk⟩
+  exact ⟨(validateV_iff s d v tr).1 hv, fun h => keysCanon_of_scalar s v tr (hk h)⟩
+
+/-- an accepted operand whose keyed lists carry canonical key fields, in the form the helper theorems take -/
+theorem optOK_of_valid_canon (s : Schema) (ks d : Bool) (tr : TypeRef) (v : Value)
+    (hv : validateV s d tr v = .ok ()) (hk : keysCanon s tr v = true) :
+    OptOK s ks d tr (some v) := by
+  intro w hw
+  cases hw
+  exact ⟨(validateV_iff s d v tr).1 hv, fun _ => hk⟩
 
 /-- the result of a merge is accepted (repeats allowed on the left and in the result) -/
 theorem merge_valid (s : Schema) (tr : TypeRef) (l r out : Value) (fuel : Nat)
@@ -87,6 +95,26 @@ theorem merge_idempotent (s : Schema) (tr : TypeRef) (l r out out2 : Value) (fue
     Value.equals out2 out = true :=
   merge_idem s fuel (some l) (some r) tr out out2 fuel2 (optOK_of_valid s _ _ tr l hl (fun _ => hkl))
     (optOK_of_valid s _ _ tr r hr (fun _ => hkr)) hm hm2
+
+/-! ### the same laws for operands whose keyed lists carry canonical key fields (`keysCanon`) -/
+
+theorem merge_valid_dupfree_canon (s : Schema) (tr : TypeRef) (l r out : Value) (fuel : Nat)
+    (hl : validateV s false tr l = .ok ()) (hr : validateV s false tr r = .ok ())
+    (hkl : keysCanon s tr l = true) (hkr : keysCanon s tr r = true)
+    (hm : mergeNode s fuel (some l) (some r) tr = .ok (some out)) :
+    validateV s false tr out = .ok () := by
+  rw [validateV_iff]
+  exact merge_conforms s false fuel (some l) (some r) tr out
+    (optOK_of_valid_canon s _ _ tr l hl hkl) (optOK_of_valid_canon s _ _ tr r hr hkr) hm
+
+theorem merge_idempotent_canon (s : Schema) (tr : TypeRef) (l r out out2 : Value) (fuel fuel2 : Nat)
+    (hl : validateV s false tr l = .ok ()) (hr : validateV s false tr r = .ok ())
+    (hkl : keysCanon s tr l = true) (hkr : keysCanon s tr r = true)
+    (hm : mergeNode s fuel (some l) (some r) tr = .ok (some out))
+    (hm2 : mergeNode s fuel2 (some out) (some r) tr = .ok (some out2)) :
+    Value.equals out2 out = true :=
+  merge_idem s fuel (some l) (some r) tr out out2 fuel2 (optOK_of_valid_canon s _ _ tr l hl hkl)
+    (optOK_of_valid_canon s _ _ tr r hr hkr) hm hm2
 
 end MV
 end SMD
